@@ -19,6 +19,7 @@ from ..core.report import AnalysisError
 from ..expr.lift import Lifter, equal
 from .c09 import pairing_table, rule_RO
 from ..core.template import find, has, require
+from ..core.canon import ct
 
 LEVEL = 'other'
 FIELDS = 'emg3d/fields.py'
@@ -89,6 +90,27 @@ def rule_SF(ctx, fm):
     ctx.check('C10.SF.dispatch', 'get_source_field: coordinate input', ok,
               'coordinate tuples are not turned into wire / electric / '
               'magnetic dipole sources', ctx.where(fm, fn))
+    # the documented keywords strength / length reach every source type they
+    # apply to: `length` belongs to the point format (5 entries) of electric
+    # AND magnetic dipoles, so its hand-over may not depend on `electric`
+    ln = find("_i_['length'] = kwargs.get('length', __)", fn)
+    okl = len(ln) == 1
+    if okl:
+        gt = au.guard_texts(ln[0][0], fn)
+        okl = not any('electric' in g for g in gt) and any(
+            g == ct(f'{s}.size == 5') for g in gt)
+    ctx.check('C10.SF.dispatch', 'get_source_field: length of point-format '
+              'dipoles', okl, 'the `length` keyword is not handed over for '
+              'every 5-entry coordinate input (electric and magnetic): the '
+              'moment of the source is that of the default length',
+              ctx.where(fm, ln[0][0] if ln else fn))
+    stq = find("_i_ = {'strength': kwargs.get('strength', __)}", fn)
+    ctx.check('C10.SF.dispatch', 'get_source_field: strength of coordinate '
+              'input', len(stq) == 1 and not [
+                  g for g in au.guard_texts(stq[0][0], fn)
+                  if 'electric' in g or '.size' in g],
+              'the `strength` keyword is not handed over for every '
+              'coordinate input', ctx.where(fm, fn))
 
 
 def rule_DV(ctx, fm):
